@@ -2,20 +2,48 @@
 
 package probdist
 
+import "gitlab.com/yawning/obfs4.git/internal/zzverif/peek"
+
+// The accessors read the private tables by field name at run time; ok=false
+// means the representation is no longer what they know (the harness then
+// uses its black-box oracles only).
+
 // VerifValues returns the absolute values of the table.
 func VerifValues(w *WeightedDist) []int {
-	w.Lock()
-	defer w.Unlock()
-	out := make([]int, len(w.values))
-	for i, v := range w.values {
-		out[i] = w.minValue + v
-	}
-	return out
+	v, _ := VerifValuesOK(w)
+	return v
 }
 
-// VerifTables returns copies of the four tables.
+// VerifValuesOK is VerifValues with an availability flag.
+func VerifValuesOK(w *WeightedDist) ([]int, bool) {
+	defer peek.Lock(w)()
+	vals, ok1 := peek.Ints(w, "values")
+	min, ok2 := peek.Int(w, "minValue")
+	if !ok1 || !ok2 {
+		return nil, false
+	}
+	for i := range vals {
+		vals[i] += min
+	}
+	return vals, true
+}
+
+// VerifTables returns copies of the four tables (nil slices when unavailable).
 func VerifTables(w *WeightedDist) (values []int, weights []float64, alias []int, prob []float64) {
-	w.Lock()
-	defer w.Unlock()
-	return append([]int{}, w.values...), append([]float64{}, w.weights...), append([]int{}, w.alias...), append([]float64{}, w.prob...)
+	defer peek.Lock(w)()
+	values, _ = peek.Ints(w, "values")
+	weights, _ = peek.Floats(w, "weights")
+	alias, _ = peek.Ints(w, "alias")
+	prob, _ = peek.Floats(w, "prob")
+	return
+}
+
+// VerifTablesOK reports whether all four tables could be read.
+func VerifTablesOK(w *WeightedDist) bool {
+	defer peek.Lock(w)()
+	_, a := peek.Ints(w, "values")
+	_, b := peek.Floats(w, "weights")
+	_, c := peek.Ints(w, "alias")
+	_, d := peek.Floats(w, "prob")
+	return a && b && c && d
 }
